@@ -33,6 +33,9 @@ def profile(rng, flavour):
     elif flavour == "sweep":         # deep books, rounds that touch only the head, then sweeps of several orders; no cancels
         p.update(nops=rng.choice([30, 45]), levels=12, p_neg=0.0)
         p["sweep"] = rng.randint(9, 16)
+    elif flavour == "long":          # more than one storage chunk (100 steps): the series are extended while history exists
+        p.update(nops=rng.choice([420, 520]), levels=4, ttls=[0, 1, 2, 3], p_neg=0.0)
+        p["w"].update(sub=40, can=6, tick=32, match=6, cont=2, run=2, probe=4)
     elif flavour == "jumpy":         # Market._set_time: several steps at once while orders with different lives rest
         p.update(ttls=[1, 2, 3, 4, 6, 0], levels=4, nops=rng.choice([40, 60]))
         p["w"].update(tick=8, jump=10, can=6)
@@ -102,7 +105,8 @@ def _drive(s, rng, pr, ops, wts, cont, mid, den, exact, tick):
             ttl = rng.choice(pr["ttls"])
             neg = ""
             if rng.random() < pr["p_neg"]:
-                neg = rng.choice(["resubmit", "foreign"])
+                neg = rng.choice(["resubmit", "foreign", "resubmit", "foreign", "zero-volume", "negative-volume", "zero-ttl", "negative-ttl",
+                                  "limit-without-price", "market-with-price"])
             req_float = None
             if not exact and not mo:
                 # decimal grids: on-grid floats as the samples produce them, or off-grid by a fraction of a tick
